@@ -34,7 +34,8 @@ func (zl *Ziplist) Next() []byte {
 	* entire list to know how many items it holds.*/
 	if zl.length == 65535 {
 		firstByte := zl.buf.ReadByte()
-		if firstByte != 0xFE {
+		// 0xFF is the end-of-list marker; 0xFE only announces a 5 byte previous-entry length
+		if firstByte != 0xFF {
 			return ReadZiplistEntry2(zl.buf, firstByte)
 		}
 	} else {
